@@ -148,6 +148,7 @@ class EvaluationProblem(BaseProblem):
                 to approximate the derivatives in parallel.
         """  # noqa: D205, D212, D415
         self._functions_are_preprocessed = False
+        self._function_input_is_normalized = None
         self.__observables = Observables()
         self.__new_iter_observables = Observables()
         self.differentiation_step = differentiation_step
@@ -588,7 +589,23 @@ class EvaluationProblem(BaseProblem):
         # Avoids multiple wrappings of functions when multiple executions
         # are performed, in bi-level scenarios for instance
         if self._functions_are_preprocessed:
-            return
+            if (
+                getattr(self, "_function_input_is_normalized", None)
+                in (None, is_function_input_normalized)
+            ):
+                return
+
+            # The functions have been wrapped for the other convention
+            # (normalized vs unnormalized input):
+            # wrap the original functions again,
+            # otherwise the new driver would evaluate them at the wrong points.
+            self.reset(
+                database=False,
+                current_iter=False,
+                design_space=False,
+                function_calls=False,
+                preprocessing=True,
+            )
 
         if round_ints:
             # Keep the rounding option only if there is an integer design variable
@@ -627,6 +644,7 @@ class EvaluationProblem(BaseProblem):
                 ),
             )
         self._functions_are_preprocessed = True
+        self._function_input_is_normalized = is_function_input_normalized
         self.check()
         self.new_iter_observables.evaluate_jacobian = eval_obs_jac
 
